@@ -1,1 +1,138 @@
-pub fn run(_args: &[String]) { unimplemented!() }
+//! C08: exhaustive enumeration of (importing file, imported file) pairs through the real
+//! `import_path`, against an independent lexical resolver.
+
+use std::path::Path;
+
+use serde_json::json;
+use ts_rs::__verif as hooks;
+use tsmodel::paths::{join, normalize, resolve_spec, spec_syntax_errors};
+
+use crate::common::{arg_value, guarded, Report, Scratch, Slice};
+
+const DIRS: &[&str] = &["a", "b", "a.b", "x.ts", "ts", ".", ".."];
+const FILES: &[&str] = &["A.ts", "b.c.ts", "x.ts.ts", "ts.ts", "Ats"];
+
+fn rel_paths(depth: usize) -> Vec<String> {
+    let mut dirs: Vec<String> = vec![String::new()];
+    let mut frontier = vec![String::new()];
+    for _ in 0..depth {
+        let mut next = vec![];
+        for d in &frontier {
+            for c in DIRS {
+                next.push(format!("{d}{c}/"));
+            }
+        }
+        dirs.extend(next.iter().cloned());
+        frontier = next;
+    }
+    let mut out = vec![];
+    for d in dirs {
+        for f in FILES {
+            out.push(format!("{d}{f}"));
+        }
+    }
+    out
+}
+
+fn file_kind(p: &str) -> &'static str {
+    let f = p.rsplit('/').next().unwrap();
+    match f {
+        "A.ts" => "plain.ts",
+        "b.c.ts" => "dotted.ts",
+        "x.ts.ts" => "double-ts-suffix",
+        "ts.ts" => "stem-is-ts",
+        _ => "no-ts-extension",
+    }
+}
+
+pub fn run(args: &[String]) {
+    let depth: usize = arg_value(args, "--depth").map_or(3, |s| s.parse().unwrap());
+    let slice = arg_value(args, "--slice").map_or(Slice { i: 0, n: 1 }, |s| Slice::parse(&s));
+    let esm = cfg!(feature = "import-esm");
+    let mut rep = Report::new("paths");
+    let mut scratch = Scratch::new("paths");
+    let root = scratch.fresh();
+    let paths = rel_paths(depth);
+    let bases = ["./bindings", "rel/dir", "/abs/dir", "./x/../y", "/b", "bindings/", "/"];
+    let cwds = ["c1", "c1/c2/c3"];
+    let mut unit = 0usize;
+    for cwd_rel in cwds {
+        let cwd = root.join(cwd_rel);
+        std::fs::create_dir_all(&cwd).unwrap();
+        std::env::set_current_dir(&cwd).unwrap();
+        let cwd_s = cwd.to_string_lossy().into_owned();
+        for base in bases {
+            // absolute, normalised location of every path (None = climbs above the root)
+            let full: Vec<String> = paths.iter().map(|p| join(base, p)).collect();
+            let abs: Vec<Option<String>> = full
+                .iter()
+                .map(|f| normalize(&join(&cwd_s, f)))
+                .collect();
+            for (fi, from) in full.iter().enumerate() {
+                unit += 1;
+                if !slice.mine(unit) {
+                    continue;
+                }
+                let from_p = Path::new(from);
+                for (ii, import) in full.iter().enumerate() {
+                    rep.evaluations += 1;
+                    let r = guarded(|| {
+                        hooks::import_path(from_p, Path::new(import)).map_err(|e| format!("{e:?}"))
+                    });
+                    let class = |check: &str| {
+                        json!({"check": check, "imported_file": file_kind(import), "esm": esm})
+                    };
+                    let detail = |extra: serde_json::Value| {
+                        json!({"cwd": cwd_rel, "base": base, "from": from, "import": import, "info": extra})
+                    };
+                    let (af, ai) = (&abs[fi], &abs[ii]);
+                    match (&r, af, ai) {
+                        (Err(e), _, _) if e.starts_with("PANIC") => {
+                            rep.violation(class("import-path-panics"), detail(json!({"panic": e})));
+                        }
+                        (_, None, _) | (_, _, None) => {
+                            rep.count("pairs_above_root_not_compared", 1);
+                        }
+                        (Err(e), Some(_), Some(_)) => {
+                            rep.violation(class("import-path-fails"), detail(json!({"error": e})));
+                        }
+                        (Ok(spec), Some(af), Some(ai)) => {
+                            let mut errs = spec_syntax_errors(spec, esm);
+                            if spec.trim_end_matches(".js").ends_with(".ts") && file_kind(import) != "double-ts-suffix" {
+                                errs.push(format!("specifier {spec:?} carries a .ts extension"));
+                            }
+                            if !errs.is_empty() {
+                                rep.violation(class("specifier-syntax"), detail(json!({"spec": spec, "problems": errs})));
+                            } else if file_kind(import) == "no-ts-extension" {
+                                // a file without .ts extension cannot be named by any specifier
+                                rep.count("pairs_import_without_ts_extension_not_resolved", 1);
+                            } else {
+                                let res = resolve_spec(af, spec, esm);
+                                if res.as_deref() != Some(ai.as_str()) {
+                                    rep.violation(
+                                        class("specifier-resolves-elsewhere"),
+                                        detail(json!({"spec": spec, "resolves_to": res, "dependency_file": ai, "importer": af})),
+                                    );
+                                } else {
+                                    rep.count("pairs_resolved_correctly", 1);
+                                }
+                            }
+                            if rep.samples.len() < 5 && fi % 97 == 3 && ii % 89 == 5 {
+                                rep.sample(detail(json!({"spec": spec})));
+                            }
+                        }
+                    }
+                }
+            }
+            rep.count("configs(cwd x base)", 1);
+        }
+    }
+    rep.count("paths_per_config", paths.len() as u64);
+    // distinct = distinct relative path shapes on either side
+    for p in &paths {
+        rep.distinct.insert(p.clone());
+    }
+    std::env::set_current_dir("/").unwrap();
+    drop(scratch);
+    rep.finish();
+}
